@@ -53,6 +53,10 @@ def _plan(tier, seed):
         shards.append({"kind": "predeclared", "seed": seed, "start": start, "count": per,
                        "tier": tier})
     shards += _opf.plan(tier, seed)
+    total = 1500 if tier == "quick" else 60000
+    per = 250 if tier == "quick" else 3000
+    for start in range(0, total, per):
+        shards.append({"kind": "wide", "seed": seed, "start": start, "count": per, "tier": tier})
     return shards
 
 
@@ -135,7 +139,46 @@ def _render_oracle(scfg):
     return check_render(scfg)
 
 
+def _run_wide(spec):
+    """flat graphs as the dict / YAML front end accepts them: dense multi-way
+    blocks (out-degree up to 7, up to 30 blocks, cycles, fan-in); rendered as
+    they are (the stages are not made for them)"""
+    from ..oracles.dot import check_render
+    from ..attach import run_oracle
+
+    _attach.install(CHECK.profile)
+    acc = _ShardAcc("C17")
+    for i in range(spec["start"], spec["start"] + spec["count"]):
+        rng = _random.Random(f"c17w/{spec['seed']}/{i}")
+        n = rng.randint(6, 30)
+        names = [str(j) for j in range(n)]
+        gd = {}
+        for j, nm in enumerate(names):
+            d = rng.choice([0, 2, 3, 4, 4, 5, 6, 7])
+            gd[nm] = tuple(dict.fromkeys(rng.choice(names[1:]) for _ in range(d)))
+        for j in range(1, n):
+            if not any(names[j] in gd[p] for p in names[:j]):
+                p = rng.choice(names[:j])
+                gd[p] = gd[p] + (names[j],)
+        ctx = _core.set_ctx(_core.Ctx(None))
+        _attach.ACTIVE.clear()
+        scfg = _drivers.make_scfg(gd, rng.choice(["basic", "bytecode"]))
+        ctx.hit("oracle.C17.render")
+        run_oracle(ctx, "C17.render_wide_flat", check_render, scfg, None)
+        acc.add_ctx(ctx, {"kind": "wide", "seed": spec["seed"], "index": i},
+                    nontrivial_hash=_core.graph_hash(gd), props={"C17"},
+                    sample=(acc.evaluations % 97 == 0))
+        acc.counters["class.wide_flat_digraph"] += 1
+        if spec.get("kind") == "single":
+            break
+    return acc.result()
+
+
 def _run_shard(spec):
+    if spec["kind"] == "wide" or (spec["kind"] == "single" and spec["case"].get("kind") == "wide"):
+        if spec["kind"] == "single":
+            spec = dict(spec, seed=spec["case"]["seed"], start=spec["case"]["index"], count=1)
+        return _run_wide(spec)
     if spec["kind"] == "predeclared":
         return _run_predeclared(spec)
     if spec["kind"] == "opfaults" or (spec["kind"] == "single"
